@@ -517,6 +517,11 @@ fn dispatch_inner<Vis: Visitor>(inst: &Inst, vis: Vis) -> Result<Vis::Out, Build
             let ad = crate::inst_poplar::PopAd { inst: inst.clone() };
             Ok(vis.visit::<_, _, 32>(&vdaf, &ad))
         }
+        ("prio2", _) => {
+            let vdaf = prio::vdaf::prio2::Prio2::new(len).map_err(vdaf_err)?;
+            let ad = crate::inst_prio2::Prio2Ad { inst: inst.clone() };
+            Ok(vis.visit::<_, _, 32>(&vdaf, &ad))
+        }
         (c, _) => Err(BuildErr::Unknown(format!("unknown class {c}"))),
     }
 }
